@@ -21,9 +21,10 @@ FAULT_METHODS = {
     "pdet": ["trigger", "read", "stage", "unstage", "pause", "resume"],
     "flyer": ["kickoff", "complete", "collect", "describe_collect"],
     "pageflyer": ["kickoff", "complete", "collect_pages", "describe_collect"],
-    "signal": ["read", "describe"],
+    "signal": ["read", "describe", "subscribe", "clear_sub"],
 }
 STATUS_METHODS = {"set", "trigger", "kickoff", "complete"}
+ENGINE_SIDE = {"clear_sub", "subscribe", "unstage", "stop", "collect", "collect_pages", "describe_collect", "complete", "pause", "resume"}
 
 
 def base_case(
@@ -137,7 +138,9 @@ def add_device_faults(rng, case, dry_view, k=1, kinds=("raise", "status_fail")):
     for _ in range(k):
         if not cands:
             break
-        dev, m, n = rng.choice(cands)
+        # methods the engine also calls on its own account (clean-up, pause/resume bookkeeping, close_run) are
+        # rarer per plan than read/trigger/set: weight them up so that faults land inside those paths too
+        dev, m, n = rng.choices(cands, weights=[3 if c[1] in ENGINE_SIDE else 1 for c in cands])[0]
         occ = rng.randrange(0, n + 1)  # may be an occurrence only reached after a rewind
         fk = rng.choice(kinds)
         if fk == "status_fail" and m not in STATUS_METHODS:
@@ -185,3 +188,17 @@ def interruption_cases(pid, seed, tier, *, K=(10, 16), kinds=None, dev_faults=0.
         if rng.random() < dev_faults:
             add_device_faults(rng, c, dv, k=rng.choice([1, 1, 2]))
         yield c
+    if dev_faults > 0:
+        # two extra cases per plan: one fault, alone, in a method the engine calls on its own account (clean-up,
+        # close_run, pause bookkeeping) at an occurrence the fault-free run reached
+        seen = {}
+        for e in dv.of("dev"):
+            if "occ" in e.d and e.d["dev"] != "sigS":
+                seen[(e.d["dev"], e.d["method"])] = max(seen.get((e.d["dev"], e.d["method"]), 0), e.d["occ"] + 1)
+        eng = [(d, m, k) for (d, m), k in sorted(seen.items()) if m in ENGINE_SIDE and m in FAULT_METHODS.get(base["devices"][d]["kind"], [])]
+        for d, m, k in rng.sample(eng, min(2, len(eng))):
+            c = copy.deepcopy(base)
+            occ = rng.randrange(0, k)
+            c["variant"] = f"engine-side-{d}.{m}#{occ}"
+            c["devices"][d].setdefault("faults", {})[f"{m}#{occ}"] = {"kind": "raise", "exc": "RuntimeError"}
+            yield c
